@@ -11,7 +11,7 @@ from gv.model import dbutil, grammar as G
 
 ID = "C17"
 RULE = (
-    "No tier dependence. Part 'set' (shards = feature source {parsed line, database look-up} x setter {Feature[k]=, attributes[k]=, "
+    "Thorough adds 7 value shapes from further corners of Unicode. Part 'set' (shards = feature source {parsed line, database look-up} x setter {Feature[k]=, attributes[k]=, "
     "update, setdefault}): value (10 shapes incl. empty list, bare string, non-ASCII, reserved characters, 2-tuple, 1-tuple) x "
     "existing/new key x always_return_list: the underlying storage holds lists of strings for every key, the view and Feature[k] follow "
     "the switch, and the printed line, astuple() and JSON form are identical under both switch settings and equal the expected line. "
@@ -30,6 +30,14 @@ ASSUMPTIONS = [
 ]
 
 VALUES = [[], ["a"], ["ab"], ["a", "b"], ["é"], [" ", "%"], "x", ["U v", "w;=,"], ("t1", "t2"), ("only",)]
+# thorough adds values from further corners of Unicode (astral plane, combining mark, direction override, BOM, NUL, JSON syntax)
+VALUES_T = VALUES + [["\U0001F600"], ["e\u0301", "\u202eabc"], ["\ufeff"], ["a\x00b"], ['q"uo\\te', "</script>"], ["\u2028", "\x85"], ["{\"k\": [1]}"]]
+
+
+def values_of(tier):
+    return VALUES if tier == "quick" else VALUES_T
+
+
 SETTERS = ("feature_setitem", "attributes_setitem", "update", "setdefault")
 LINE = "c1\ts\tgene\t5\t9\t.\t+\t.\tID=abc;Name=n1,n2;tag=t"
 
@@ -37,13 +45,14 @@ MVALS = [None, [], ["a"], ["b", "a"], ["10", "9"], ["2", "x"], ["1.5", "10"], ["
 
 
 def bounds(tier):
-    return dict(set_values=[repr(v) for v in VALUES], setters=list(SETTERS), json_mappings=len(VALUES) ** 3 + len(VALUES) ** 2 + len(VALUES),
+    V = values_of(tier)
+    return dict(set_values=[repr(v) for v in V], setters=list(SETTERS), json_mappings=len(V) ** 3 + len(V) ** 2 + len(V),
                 merge_mappings=len(MVALS) ** 2, eq_features=24)
 
 
 def shards(tier):
     out = [("set", src, si) for src in ("parsed", "db") for si in range(len(SETTERS))]
-    out += [("json", n, v0) for n in (1, 2, 3) for v0 in range(len(VALUES))]
+    out += [("json", n, v0) for n in (1, 2, 3) for v0 in range(len(values_of(tier)))]
     out += [("merge", i) for i in range(len(MVALS) ** 2)]
     out += [("eq", i) for i in range(24)]
     return out
@@ -65,7 +74,7 @@ def seq_of_str(v):
 def body_set(ch, ctx):
     _, src, si = ctx.shard
     setter = SETTERS[si]
-    v = ch.choose("value", VALUES)
+    v = ch.choose("value", values_of(ctx.tier))
     key = ch.choose("key", ("Name", "fresh"))
     switch = ch.choose("always_return_list", (True, False))
     if src == "parsed":
@@ -138,7 +147,8 @@ def body_set(ch, ctx):
 
 def body_json(ch, ctx):
     _, n, v0 = ctx.shard
-    vals = [VALUES[v0]] + [ch.choose("v%d" % i, VALUES) for i in range(1, n)]
+    V = values_of(ctx.tier)
+    vals = [V[v0]] + [ch.choose("v%d" % i, V) for i in range(1, n)]
     keys = (["kβ", "a b", "Z"] if v0 % 2 == 0 else ["self", "kwargs", "__class__"])[:n]      # odd: names with a meaning in Python
     m = {}
     for k, v in zip(keys, vals):
